@@ -170,6 +170,9 @@ func Corpus(tier string, seed int64) []Inst {
 	// ... and hidden inside comparable composites that have no Equal of their own (array, wrapper struct)
 	add(Ptr(NStruct("HasArrUEq", F("A", Array(2, uv)), F("L", Slice(B("int"))))))
 	add(Ptr(NStruct("HasWrapUEq", F("W", NStruct("WrapU", F("In", uv))), F("X", B("int")))))
+	// ... the same with a named BASIC type that has its own Equal (compared by parity)
+	add(Ptr(NStruct("HasArrNPar", F("A", Array(2, np)), F("L", Slice(B("int"))))))
+	add(Ptr(NStruct("HasWrapNPar", F("W", NStruct("WrapN", F("In", np), F("K", B("string")))), F("X", B("int")))))
 	add(Slice(uv))
 	add(Map(B("string"), np))
 	add(Array(2, uv))
